@@ -81,7 +81,7 @@ pub fn run(job_path: &str, out_path: &str) -> Result<(), String> {
                 } else {
                     model_check_extended_formula_dirty(law["rhs"].as_str().unwrap_or(""), &g, &ctx)?
                 };
-                Ok((lhs == rhs, lhs.approx_cardinality(), rhs.approx_cardinality()))
+                Ok((crate::enc::same_bdd(lhs.as_bdd(), rhs.as_bdd()), lhs.approx_cardinality(), rhs.approx_cardinality()))
             }));
             let ms = t0.elapsed().as_millis() as u64;
             facts.push(match r {
